@@ -450,7 +450,12 @@ func (x *fnExec) external(fr *frame, st *State, ci ssa.CallInstruction, res ssa.
 		set(v)
 		return
 	case pkg == "sort" || strings.HasPrefix(name, "slices.Sort"):
-		// permutes the slice argument: elements unknown afterwards
+		// permutes the slice argument: elements unknown afterwards (see sortcmp.go for what is checked and kept)
+		sc := x.sortComparator(fr, ci, name)
+		if sc != nil {
+			x.sortCmpCheck(fr, st, ci, sc)
+			defer func() { x.sortedFact(fr, st, sc) }()
+		}
 		for i, a := range args {
 			if a.K == VSlice {
 				if sl, ok := fn.Params[i].Type().Underlying().(*types.Slice); ok {
